@@ -5,6 +5,7 @@ from vlib import *
 GEN_KINDS = {
     "magic": "MagicData.v",
     "polyglot": "PolyglotData.v",
+    "bitbase": "BitbaseDump.v",
 }
 
 
